@@ -236,8 +236,19 @@ func main() {
 						redirects[fields[1]] = to
 						assumptions = append(assumptions, "redirect "+fields[1]+" -> "+fields[2])
 					case "verif:guard":
-						if len(fields) != 4 {
+						if len(fields) != 4 && len(fields) != 5 {
 							fatal("bad guard directive: %s", txt)
+						}
+						if len(fields) == 5 {
+							hit := false
+							for _, o := range strings.Split(strings.TrimPrefix(fields[4], "only="), ",") {
+								if o == *run {
+									hit = true
+								}
+							}
+							if !hit {
+								continue
+							}
 						}
 						guards = append(guards, guardSpec{fields[1], fields[2], fields[3]})
 					case "verif:assume":
